@@ -758,6 +758,10 @@ func (e *Exec) syncIntrinsic(fn *ssa.Function, name string, args []Value) (Value
 				return BoolV{e.P.Bool(true)}, true
 			}
 			return BoolV{e.P.Bool(false)}, true
+		case "Swap":
+			old := e.load(cell)
+			e.store(cell, args[1])
+			return old, true
 		case "Add":
 			nv := e.binop(token.ADD, e.load(cell), args[1], nil)
 			e.store(cell, nv)
